@@ -392,6 +392,14 @@ func c13Case(r *mon.Run, rng *rand.Rand, s *rfix.Star, w *cfgW, idx int) {
 		r.Inconclusive("epic-ts-not-encodable")
 		return
 	}
+	if rng.IntN(16) == 0 {
+		// edge values of the 32-bit packet timestamp on a segment created just now:
+		// the sender time they denote is up to ~25 h after the segment timestamp
+		ticks = int64([...]uint32{0xffffffff, 0xfffffffe, 0, 1, 0x80000000, 0x7fffffff, 0xffff0000}[rng.IntN(7)])
+		seg0.Ts = uint32(now.Unix() - int64(rng.IntN(4)))
+		seg0.Seal(rng)
+		timeClass = "tick-edge"
+	}
 	var pktID [8]byte
 	binary.BigEndian.PutUint32(pktID[:4], uint32(ticks))
 	binary.BigEndian.PutUint32(pktID[4:], rng.Uint32())
